@@ -260,6 +260,28 @@ func init() {
 	families["variants"] = func(seed int64, n int) []*Program {
 		r := rand.New(rand.NewSource(seed))
 		var ps []*Program
+		// fixed bases: closures over variables of every placement that are called across instances, copied, stored in containers
+		mkCounter := func() *Node {
+			return Fn(nil, false, Def("c", Int(0)), Ret(Fn(nil, false, Set("c", nil, "+=", Int(1)), Ret(Id("c")))))
+		}
+		fixed := []*Program{
+			{Stmts: []*Node{Def("mk", mkCounter()), Def("f", Call(Id("mk"))), Def("g", Call(Id("copy"), Id("f"))),
+				Def("a", Call(Id("f"))), Def("b", Call(Id("g"))), Def("c2", Call(Id("f")))}},
+			{Stmts: []*Node{Def("mk", mkCounter()), Def("arr", Arr(Call(Id("mk")))), Def("arr2", Call(Id("copy"), Id("arr"))),
+				Def("a", Call(Idx(Id("arr"), Int(0)))), Def("b", Call(Idx(Id("arr2"), Int(0)))), Def("c2", Call(Idx(Id("arr"), Int(0))))}},
+			{Stmts: []*Node{Def("mk", mkCounter()), Def("m", Map([]string{"f"}, []*Node{Call(Id("mk"))})), Def("m2", Call(Id("copy"), Id("m"))),
+				Def("a", Call(Sel(Id("m"), "f"))), Def("b", Call(Sel(Id("m2"), "f"))), Def("m3", Imm(Id("m"))), Def("c2", Call(Sel(Id("m3"), "f")))}},
+			{Stmts: []*Node{Def("cnt", Int(0)), Def("inc", Fn(nil, false, Set("cnt", nil, "+=", Int(1)), Ret(Id("cnt")))), Def("inc2", Call(Id("copy"), Id("inc"))),
+				Def("a", Call(Id("inc"))), Def("b", Call(Id("inc2"))), Def("c2", Id("cnt"))}},
+		}
+		for _, d := range []int{1, 2, 3} {
+			for _, sp := range tailcallSpecials(d) {
+				fixed = append(fixed, &Program{Stmts: sp.Stmts})
+			}
+		}
+		for i, base := range fixed {
+			ps = append(ps, variantsOf(r, base, 1000000+i)...)
+		}
 		for i := 0; i < n; i++ {
 			var base *Program
 			switch i % 4 {
